@@ -2260,6 +2260,15 @@ impl Node {
             .update_tracker(&self.get_id(), &tracker)
             .map_err(|_| internal_error("tracker persist failed"))?;
 
+        // check_onchain_tx counted the fee against the fee velocity control - persist,
+        // so that a restart does not forget it
+        {
+            let state = self.get_state();
+            self.persister
+                .update_node(&self.get_id(), &*state)
+                .map_err(|_| internal_error("node persist failed"))?;
+        }
+
         Ok(witvec)
     }
 
